@@ -23,4 +23,10 @@ def queries(ctx, extra):
         qs.append(Query(name=e[2:], harness="c17_lib.c", entry=e, srcs=["buffer.c"], defs=["-DFLEN=190", "-DV_NO_BUG_STUB"],
                         unwind=24, unwindset=["load.0:192", "fread.0:192", "strAlloc.0:192"], timeout=900, mem_gb=12, object_bits=12,
                         group=".ao header/sections", bound="file of 0..190 symbolic bytes"))
+    for nb, tiers in ((3, ("quick", "thorough")), (5, ("thorough",))):
+        qs.append(Query(name="foam_decode_%d" % nb, harness="c17_foam.c", entry="h_foam_decode",
+                        srcs=["foam.c", "buffer.c", "bigint.c", "xfloat.c", "util.c"], remove_bodies=["foamInit"],
+                        defs=["-DNB=%d" % nb, "-DV_NO_BUG_STUB"], unwind=nb + 3, unwindset=["foamFrBuffer:%d" % nb],
+                        timeout=1800, mem_gb=12, object_bits=12, tiers=tiers, unwind_fail_is_violation=False,
+                        group="FOAM decoder", bound="section of 1..%d symbolic bytes" % nb))
     return qs
